@@ -765,7 +765,8 @@ func init() {
 		for _, tc := range []struct {
 			v    any
 			p, s int
-		}{{float64(100), 2, 0}, {float64(1), 2, 309}, {float64(123.456), 4, 1}, {float64(99.99), 4, 2}, {float64(99.999), 4, 2}} {
+		}{{float64(100), 2, 0}, {float64(1), 2, 309}, {float64(123.456), 4, 1}, {float64(99.99), 4, 2}, {float64(99.999), 4, 2},
+			{1e300, 1000, 10}, {1e10, 1000, 300}, {12345.5, 400, 308}, {float64(2), 1000, 308}, {-1.75, 1000, 308}, {1e300, 1000, -300}, {1e-300, 1000, 308}, {float64(0), 5, 308}} {
 			in := mustInput(fmt.Sprintf("$.decimal(%d,%d)", tc.p, tc.s), tc.v, nil)
 			c := in.run("query", false, nil)
 			if c.err != nil || len(c.items) != 1 {
@@ -773,7 +774,7 @@ func init() {
 			}
 			f, _ := c.items[0].(float64)
 			if math.IsNaN(f) || math.IsInf(f, 0) {
-				if o.isKnown("D17c") {
+				if (tc.s > 308 || tc.s < -308) && o.isKnown("D17c") {
 					continue
 				}
 				return violation(in, ".decimal returned a non-finite value", J{"got": showCall(c)})
